@@ -7,6 +7,8 @@ import Momo.Proof.ArrOps
   of memory-manager calls are universally quantified.
 -/
 namespace Momo.ArrF
+set_option linter.unusedSimpArgs false
+set_option linter.unusedVariables false
 open Momo Momo.Arr
 open FM (throw tryCatch)
 variable {α β γ : Type}
